@@ -374,6 +374,13 @@ func Record(args []string) {
 			longLag = []int{0, 1, 3, 0, 1, 3}[(t-*n-1)%6]
 			longSize = []int{16, 16, 16, 256, 64, 64}[(t-*n-1)%6]
 			nfr = 4000 + rng.Intn(2000)
+			// the delayed disciplines with the smallest buffer: a stream several times their (larger) bound, so that memory
+			// that grows with the stream -- however slowly -- ends above it
+			if longSize == 16 && longLag == 1 {
+				nfr = 15000 + rng.Intn(2000)
+			} else if longSize == 16 && longLag == 3 {
+				nfr = 30000 + rng.Intn(2000)
+			}
 		}
 		var data []byte
 		for i := 0; i < nfr; i++ {
@@ -410,8 +417,17 @@ func Record(args []string) {
 			sc.Sched = append(sc.Sched, rstep{N: k, End: left == 0 && rng.Intn(2) == 0})
 		}
 		if isLong {
+			// reader schedule of the long streams, in rotation against lag and size: large reads, always 5 bytes, 1 to 4 bytes
+			// (how much a read delivers decides how often the buffer is refilled between two tokens)
+			idx := t - *n - 1
+			style := ([]int{0, 1, 2, 1, 2, 0}[idx%6] + idx/6) % 3
 			for left > 0 {
 				k := 1 + rng.Intn(300)
+				if style == 1 {
+					k = 5
+				} else if style == 2 {
+					k = 1 + rng.Intn(4)
+				}
 				if k > left {
 					k = left
 				}
@@ -455,6 +471,9 @@ func Record(args []string) {
 				}
 				ok := true
 				for i := 0; i < tl && ok; i++ {
+					if s >= 1500 && i < tl-1 {
+						continue // later tokens: look at their last byte only (keeps the long traces short)
+					}
 					ev, _ := x.do(op{Op: "Peek", K: i})
 					ok = ev["out"] == "ret"
 				}
